@@ -77,7 +77,10 @@ impl E2ECampaign {
     let cfg = FaultCfg { p_eintr: swarm(&mut rng, &[3, 10]), p_spurious_timeout: swarm(&mut rng, &[5, 20]), p_spurious_ready: swarm(&mut rng, &[5, 20]), p_latency: swarm(&mut rng, &[10, 40]), p_oversleep: swarm(&mut rng, &[20]), max_interrupts: rng.below(3) as u32 };
     let mut cfg = cfg;
     match rng.below(24) { 0 => cfg.p_spurious_timeout = 90, 1 => cfg.p_spurious_ready = 90, 2 => { cfg.p_eintr = 85; cfg.max_interrupts = 6 + rng.below(5) as u32; } _ => {} }
-    let b = CaseB { layout: a.sut_layout().unwrap_or_else(|_| a.layout.clone()), layout_name: a.layout_name.clone(), kbd, tab: vec![], has_tablet: false, cfg, tape: vec![], fail_at: None, extra_ticks: rng.below(3) as u32, kbd_end_at: None, tab_end_at: None, hybrid: true, write_fault: None, read_fault: None, sysread_fault: None, poll_fault: None, syspoll: rng.chance(1, 2) };
+    let b = CaseB { layout: a.sut_layout().unwrap_or_else(|_| a.layout.clone()), layout_name: a.layout_name.clone(), kbd, tab: vec![], has_tablet: false, cfg, tape: vec![], fail_at: None, extra_ticks: rng.below(3) as u32, kbd_end_at: None, tab_end_at: None, hybrid: true, write_fault: None, read_fault: None, sysread_fault: None, syswrite_fault: None, poll_fault: None, syspoll: rng.chance(1, 2) };
+    let mut b = b;
+    // one run in eight: a write(2) on the virtual keyboard fails at some point, for good or for a moment
+    if rng.chance(1, 8) { b.syswrite_fault = Some((rng.below(40), [0u32, 0, 1, 1, 2, 3][rng.below(6)], rng.below(4) as u8)); }
     CaseE { a, b }
   }
 }
@@ -111,7 +114,10 @@ impl E2ECampaign {
     }
     let swarm = |rng: &mut Rng, choices: &[u32]| if rng.chance(1, 2) { 0 } else { rng.pick(choices) };
     let cfg = FaultCfg { p_eintr: swarm(rng, &[3, 10]), p_spurious_timeout: swarm(rng, &[5, 20]), p_spurious_ready: swarm(rng, &[5, 20]), p_latency: swarm(rng, &[10, 40]), p_oversleep: swarm(rng, &[20]), max_interrupts: rng.below(3) as u32 };
-    let b = CaseB { layout: a.sut_layout().unwrap_or_else(|_| a.layout.clone()), layout_name: a.layout_name.clone(), kbd, tab, has_tablet: true, cfg, tape: vec![], fail_at: None, extra_ticks: rng.below(3) as u32, kbd_end_at: None, tab_end_at: None, hybrid: true, write_fault: None, read_fault: None, sysread_fault: None, poll_fault: None, syspoll: rng.chance(1, 2) };
+    let b = CaseB { layout: a.sut_layout().unwrap_or_else(|_| a.layout.clone()), layout_name: a.layout_name.clone(), kbd, tab, has_tablet: true, cfg, tape: vec![], fail_at: None, extra_ticks: rng.below(3) as u32, kbd_end_at: None, tab_end_at: None, hybrid: true, write_fault: None, read_fault: None, sysread_fault: None, syswrite_fault: None, poll_fault: None, syspoll: rng.chance(1, 2) };
+    let mut b = b;
+    // one run in eight: a write(2) on the virtual keyboard fails at some point, for good or for a moment
+    if rng.chance(1, 8) { b.syswrite_fault = Some((rng.below(40), [0u32, 0, 1, 1, 2, 3][rng.below(6)], rng.below(4) as u8)); }
     CaseE { a, b }
   }
 }
@@ -196,19 +202,38 @@ pub fn execute_e(case: &CaseE, en: &En, record: Option<u64>, obs: &mut Obs) -> R
   // a run that hit the simulator's trace cap was cut short by an unplug the history knows nothing
   // about (fast timers under a readiness storm can do that): it is not evaluated
   if out.stats.trace_cap_hit > 0 { return Ok((None, out)); }
+  // A run in which a write to the virtual keyboard failed (and the failure was reported) ends there.
+  // The steps completed before the failing one are judged as usual; the failing step itself is not a
+  // step the statements speak about, except for what a half-written no-repeat step leaves behind.
+  let fail_at = out.trace.iter().position(|it| matches!(it, Item::Fail { .. }));
+  let cut = match fail_at { None => out.trace.len(), Some(f) => out.trace[..f].iter().rposition(|it| matches!(it, Item::NextK { res: Some(_), .. } | Item::NextT { res: Some(_), .. })).unwrap_or(0) };
+  let trace = &out.trace[..cut];
+  let partial = |v: Option<Violation>| -> Option<Violation> {
+    if v.is_some() || !en.c07 { return v; }
+    out.byte_notes.iter().find(|m| m.starts_with("[partial-step]")).map(|m| Violation::new("C07-partial-step", cut, m.clone()))
+  };
   if case.b.has_tablet {
-    let (ops, steps, chords) = ops_from_trace(&out.trace);
+    let (ops, steps, chords) = ops_from_trace(trace);
     let mut pre = Precomputed { steps, chords, i: 0, per_op: true };
     let a = CaseA { layout: case.a.layout.clone(), layout_name: case.a.layout_name.clone(), dist: case.a.dist, ops, written: case.a.written.clone() };
     let en2 = *en;
     let v = catch_unwind(AssertUnwindSafe(|| execute_with(&a, &en2, obs, &mut pre))).map_err(|e| format!("oracle panicked: {}", panic_msg(&e)))?;
+    let v = partial(v);
     return Ok((v, out));
   }
-  let delivered: Vec<Event> = case.a.ops.iter().filter_map(|o| if let Op::Ev(e) = o { Some(e.clone()) } else { None }).collect();
-  let (steps, chords, _note) = attribute(&sut_layout, &delivered, &out.trace);
+  let mut delivered: Vec<Event> = case.a.ops.iter().filter_map(|o| if let Op::Ev(e) = o { Some(e.clone()) } else { None }).collect();
+  let mut a = case.a.clone();
+  if fail_at.is_some() {
+    // the delivered events whose steps were completed before the failure
+    let done = trace.iter().filter(|it| matches!(it, Item::NextK { res: Some(_), phantom: false, .. })).count().min(delivered.len());
+    delivered.truncate(done);
+    let mut seen = 0usize; a.ops.retain(|o| if let Op::Ev(_) = o { seen += 1; seen <= done } else { seen < done });
+  }
+  let (steps, chords, _note) = attribute(&sut_layout, &delivered, trace);
   let mut pre = Precomputed { steps, chords, i: 0, per_op: false };
-  let a = case.a.clone(); let en2 = *en;
+  let en2 = *en;
   let v = catch_unwind(AssertUnwindSafe(|| execute_with(&a, &en2, obs, &mut pre))).map_err(|e| format!("oracle panicked: {}", panic_msg(&e)))?;
+  let v = partial(v);
   Ok((v, out))
 }
 
@@ -263,6 +288,7 @@ impl Campaign for E2ECampaign {
     acc.fault("io_latency_in_call", s.latency); acc.fault("spurious_readiness", s.spurious_ready); acc.fault("signal_interrupts_poll", s.eintr); acc.fault("arrival_during_drain", s.arrival_during_drain);
     acc.probe_n("polls_through_the_shipped_real_driver_poll", s.sys_polls_through_real_driver); acc.fault("wait_syscall_interrupted_eintr", s.sys_wait_eintr); acc.fault("wait_syscall_fabricated_readiness", s.sys_fabricated_ready); acc.fault("wait_syscall_stale_edge_dropped", s.sys_stale_dropped);
     acc.probe_n("real_driver_polls_cross_checked", s.real_polls_compared); acc.probe_n("wakeup_with_two_or_more_events", s.multi_event_wakeups);
+    acc.fault("os_write_failed_at_nth_write_syscall", s.os_syswrite_fault.iter().sum::<u64>()); acc.probe_n("failed_write_left_partial_frame_on_device", s.syswrite_partial_frames);
     acc.count("runs_cut_short_by_the_trace_cap_and_not_evaluated", out.stats.trace_cap_hit.min(1));
     acc.count("steps", obs.steps); acc.count("sim_us", out.sim_us); acc.count("mappings_fired", obs.fired); acc.count("driver_calls", out.trace.len() as u64);
     let delivered: Vec<Event> = case.a.ops.iter().filter_map(|o| if let Op::Ev(e) = o { Some(e.clone()) } else { None }).collect();
